@@ -40,6 +40,10 @@ structure Proto where
   mid : Nat           -- operations between the passed check and the final step
   final : Final
   zeroUnl : Bool      -- `limit > 0 &&` guard present: 0 means unlimited
+  fused : Bool := false   -- `Lock()` is not a step of its own: the first step runs from the lock to the first gate
+                          -- INSIDE the critical section (`ClientRegistry.Register` with a gated `Close()` of the victim)
+  sections : Nat := 1     -- fused evict protocol: 1 = check + evict + `Close()` + insert in ONE critical section;
+                          -- 2 = check + evict, unlock, `Close()`, lock, insert without re-check
 
 /-- The refusal condition as written in Go: `[max > 0 &&] n >= max`. -/
 def full (P : Proto) (limit n : Nat) : Bool :=
@@ -58,6 +62,7 @@ inductive PC where
   | counting (snap k : Nat)   -- occupancy `snap` read, `k` more storage reads before the check
   | passed (snap k : Nat)     -- check passed on `snap`, `k` more operations before the final step
   | noise (k : Nat)           -- request of another client past its check, `k` more operations
+  | evicting (v : Nat)        -- inside the victim's `Close()`, about to insert
 deriving DecidableEq, Repr
 
 structure Thread where
@@ -74,6 +79,7 @@ inductive Ev where
   | ref (tid : Nat) (dirty : Bool) (n : Nat)        -- refused; `dirty` = the request changed state
   | rel (tid item n : Nat)
   | nop (tid n : Nat)                               -- release with nothing to release
+  | evi (tid victim n : Nat)                        -- the victim left the map in a step of its own (two-section variant)
 deriving DecidableEq, Repr
 
 structure Cfg where
@@ -155,6 +161,32 @@ def noiseStep (P : Proto) (limit : Nat) (c : Cfg) (tid : Nat) : Cfg :=
     else stpCfg c tid { c.threads tid with pc := .noise P.mid } c.locks
   else doneCfg P c tid
 
+def holdLock (locks : List Nat) (inst : Nat) : List Nat := if inst ∈ locks then locks else inst :: locks
+
+/-- The victim leaves the map, the lock is released, the thread goes on into `Close()` (two sections). -/
+def evictCore (c : Cfg) (tid v : Nat) : Cfg :=
+  { c with occ := c.occ.erase v,
+           threads := upd c.threads tid { c.threads tid with pc := .evicting v },
+           trace := c.trace ++ [.evi tid v (c.occ.erase v).length] }
+
+/-- Fused evict protocol from the moment the registry lock is held: check, pick the victim, run into
+its `Close()` (a gate of the harness) — or refuse / insert right away. -/
+def evictEnter (P : Proto) (limit : Nat) (c : Cfg) (tid : Nat) : Cfg :=
+  if full P limit c.occ.length then
+    match c.occ with
+    | [] => refuseCfg P c tid
+    | v :: _ =>
+      if P.sections ≤ 1 then
+        stpCfg c tid { c.threads tid with pc := .evicting v } (holdLock c.locks (c.threads tid).inst)
+      else unlockCfg P (evictCore c tid v) (c.threads tid).inst
+  else admitCfg P c tid c.occ none
+
+/-- `Close()` of the victim returned: insert (one section: the victim leaves the map in the same
+critical section; two sections: plain insert in a second critical section, no re-check). -/
+def evictFinish (P : Proto) (c : Cfg) (tid v : Nat) : Cfg :=
+  if P.sections ≤ 1 then admitCfg P c tid (c.occ.erase v) (some v)
+  else admitCfg P c tid c.occ none
+
 def nopCfg (c : Cfg) (tid : Nat) : Cfg :=
   { c with threads := upd c.threads tid { finishOp (c.threads tid) with own := none },
            trace := c.trace ++ [.nop tid c.occ.length] }
@@ -187,9 +219,14 @@ def stepThread (P : Proto) (limit : Nat) (c : Cfg) (tid : Nat) : Cfg :=
       else nopCfg c tid
   | .acquire :: _ =>
     match (c.threads tid).pc with
-    | .idle => if P.mutex then lockStep c tid else readStep P limit c tid
+    | .idle =>
+      if P.mutex then
+        if P.fused then
+          if (c.threads tid).inst ∈ c.locks then waitCfg c tid else evictEnter P limit c tid
+        else lockStep c tid
+      else readStep P limit c tid
     | .waiting => blkCfg c tid
-    | .locked => readStep P limit c tid
+    | .locked => if P.fused then evictEnter P limit c tid else readStep P limit c tid
     | .counting snap k =>
       if k ≤ 1 then checkStep P limit c tid snap
       else stpCfg c tid { c.threads tid with pc := .counting snap (k - 1) } c.locks
@@ -198,6 +235,7 @@ def stepThread (P : Proto) (limit : Nat) (c : Cfg) (tid : Nat) : Cfg :=
       | 0 => finalStep P limit c tid snap
       | k' + 1 => stpCfg c tid { c.threads tid with pc := .passed snap k' } c.locks
     | .noise _ => c
+    | .evicting v => if P.fused then evictFinish P c tid v else c
   | .other :: _ =>
     match (c.threads tid).pc with
     | .idle => if P.mutex then lockStep c tid else noiseStep P limit c tid
@@ -209,6 +247,7 @@ def stepThread (P : Proto) (limit : Nat) (c : Cfg) (tid : Nat) : Cfg :=
       | k' + 1 => stpCfg c tid { c.threads tid with pc := .noise k' } c.locks
     | .counting _ _ => c
     | .passed _ _ => c
+    | .evicting _ => c
 
 def run (P : Proto) (limit : Nat) (c : Cfg) (σ : List Nat) : Cfg := σ.foldl (stepThread P limit) c
 
@@ -226,20 +265,26 @@ def init (pre : Nat) (progs : List (Nat × List Op)) : Cfg :=
 
 /-! ## The instances -/
 
-def protoConn : Proto := ⟨false, true, fun _ => 0, 0, .check, true⟩
+def protoConn : Proto := { mutex := false, early := true, cnt := fun _ => 0, mid := 0, final := .check, zeroUnl := true }
 /-- `CreateConnection` as found (check under `RLock`, plain insert under `Lock`). -/
-def protoConnAsFound : Proto := ⟨false, true, fun _ => 0, 0, .plain, true⟩
-def protoCtrl : Proto := ⟨false, false, fun _ => 0, 0, .evict, true⟩
-def protoTun : Proto := ⟨false, false, fun _ => 0, 0, .check, true⟩
+def protoConnAsFound : Proto := { mutex := false, early := true, cnt := fun _ => 0, mid := 0, final := .plain, zeroUnl := true }
+def protoCtrl : Proto := { mutex := false, early := false, cnt := fun _ => 0, mid := 0, final := .evict, zeroUnl := true }
+/-- `ClientRegistry.Register` with stream doubles whose `Close()` is a gate: the registry lock `r.mu`
+is the mutex, taking it is fused with the first step, the evicting thread parks inside `Close()`. -/
+def protoCtrlX : Proto := { mutex := true, early := false, cnt := fun _ => 0, mid := 0, final := .evict, zeroUnl := true,
+                            fused := true, sections := 1 }
+/-- the two-section variant (seeded regression `register-evict-then-insert-two-sections`). -/
+def protoCtrlX2 : Proto := { protoCtrlX with sections := 2 }
+def protoTun : Proto := { mutex := false, early := false, cnt := fun _ => 0, mid := 0, final := .check, zeroUnl := true }
 /-- mapping handler as the harness can schedule it (no stop between `Load` and `CompareAndSwap`). -/
-def protoMap : Proto := ⟨false, false, fun _ => 0, 0, .check, true⟩
+def protoMap : Proto := { mutex := false, early := false, cnt := fun _ => 0, mid := 0, final := .check, zeroUnl := true }
 /-- mapping handler at atomic-instruction granularity. -/
-def protoMapCas : Proto := ⟨false, true, fun _ => 0, 0, .cas, true⟩
+def protoMapCas : Proto := { mutex := false, early := true, cnt := fun _ => 0, mid := 0, final := .cas, zeroUnl := true }
 /-- mapping handler as found (`Load`, check, separate `Add`). -/
-def protoMapAsFound : Proto := ⟨false, true, fun _ => 0, 0, .plain, true⟩
-def protoCode : Proto := ⟨true, true, fun n => n, 3, .plain, false⟩
-def protoMapq : Proto := ⟨true, true, fun _ => 0, 0, .plain, false⟩
+def protoMapAsFound : Proto := { mutex := false, early := true, cnt := fun _ => 0, mid := 0, final := .plain, zeroUnl := true }
+def protoCode : Proto := { mutex := true, early := true, cnt := fun n => n, mid := 3, final := .plain, zeroUnl := false }
+def protoMapq : Proto := { mutex := true, early := true, cnt := fun _ => 0, mid := 0, final := .plain, zeroUnl := false }
 /-- quotas as found: count-then-create without mutual exclusion. -/
-def protoCodeAsFound : Proto := ⟨false, true, fun n => n, 3, .plain, false⟩
+def protoCodeAsFound : Proto := { mutex := false, early := true, cnt := fun n => n, mid := 3, final := .plain, zeroUnl := false }
 
 end Tunnox.C17
